@@ -130,7 +130,7 @@ def cases(tier, seed):
 
 
 # in-place edits of the option dictionaries handed to successive calls (the caller keeps and edits its own objects)
-EDITS = (('imf_opts', 'stop_method', 'fixed'), ('imf_opts', 'max_iters', 2), ('envelope_opts', 'interp_method', 'mono_pchip'),
+EDITS = (('imf_opts', 'sd_thresh', 0.3), ('imf_opts', 'env_step_size', 0.5), ('envelope_opts', 'interp_method', 'mono_pchip'),
          ('extrema_opts', 'pad_width', 1), ('extrema_opts', 'parabolic_extrema', True), ('imf_opts', None, None),
          ('envelope_opts', None, None), ('extrema_opts', None, None))
 
